@@ -45,13 +45,25 @@ structure VCap where
   rtx : Option Nat
 deriving DecidableEq, Repr
 
+/-- `T38Capability` (the fields `apply_image_config` writes) -/
+structure T38Cap where
+  pt : Nat
+  version : Nat
+  maxBitrate : Nat
+  rate : Str            -- `T38FaxRateManagement` as printed
+  maxBuffer : Nat
+  maxDatagram : Nat
+  ec : Str              -- `T38UdpEC` as printed
+deriving DecidableEq, Repr
+
 structure Cfg where
   mode : Mode
   legacySip : Bool            -- `sdp_compatibility == LegacySip`
   muxRequire : Bool           -- `rtcp_mux_policy == Require`
   audio : List ACap           -- `media_capabilities.audio` (empty = not configured)
   video : List VCap
-  sctpPort : Nat
+  sctpPort : Nat              -- `media_capabilities.application.sctp_port` (default 5000)
+  image : List T38Cap := []   -- `media_capabilities.image` (empty = not configured)
 deriving DecidableEq, Repr
 
 def defaultACap : ACap :=
@@ -136,10 +148,16 @@ def videoCapStep (fa : List Str × List Attr) (v : VCap) : List Str × List Attr
 def applyVideoConfig (c : Cfg) : List Str × List Attr :=
   c.videoCaps.foldl videoCapStep (c.videoCaps.map (fun v => natStr v.pt), muxAttr c)
 
-def t38Attrs : List Attr :=
-  [attr "T38FaxVersion" "0".toList, attr "T38MaxBitRate" (natStr defT38MaxBitrate),
-   attr "T38FaxRateManagement" "transferredTCF".toList, attr "T38FaxMaxBuffer" "1024".toList,
-   attr "T38FaxMaxDatagram" "238".toList, attr "T38FaxUdpEC" "t38UDPRedundancy".toList]
+def defaultT38 : T38Cap :=
+  ⟨defT38Pt, 0, defT38MaxBitrate, "transferredTCF".toList, 1024, 238, "t38UDPRedundancy".toList⟩
+
+def t38AttrsOf (t : T38Cap) : List Attr :=
+  [attr "T38FaxVersion" (natStr t.version), attr "T38MaxBitRate" (natStr t.maxBitrate),
+   attr "T38FaxRateManagement" t.rate, attr "T38FaxMaxBuffer" (natStr t.maxBuffer),
+   attr "T38FaxMaxDatagram" (natStr t.maxDatagram), attr "T38FaxUdpEC" t.ec]
+
+/-- `apply_image_config`: one format and six attributes PER configured T.38 capability -/
+def imageCaps (c : Cfg) : List T38Cap := if c.image.isEmpty then [defaultT38] else c.image
 
 /-! ### reading capabilities back from a remote section (`to_audio_capabilities`, video clock) -/
 
@@ -354,7 +372,7 @@ def codecPart (c : Cfg) (k : Kind) (remote : List Media) (hasLocal : Bool) (mid 
     | none => fa
   | .video => mergeRemoteRtx remote mid (stripRtx (applyVideoConfig c))
   | .application => (["webrtc-datachannel".toList], [attr "sctp-port" (natStr c.sctpPort)])
-  | .image => ([natStr defT38Pt], t38Attrs)
+  | .image => ((imageCaps c).map (fun t => natStr t.pt), (imageCaps c).flatMap t38AttrsOf)
 
 /-- `populate_media_capabilities(.., Answer)` followed by the rtcp-mux retain -/
 def capabilities (c : Cfg) (k : Kind) (remote : List Media) (hasLocal : Bool) (role : Option Bool)
